@@ -727,10 +727,17 @@ def check_c17(tier, seed):
             s = {'world': 'enc', 'cfg': it['cfg'], 'content': it['content'], 'program': [o for o in it['program'] if o['op'] != 'yield'], 'sim': {'policy': 'np', 'seed': 1}, 'machine': {'cores': 4, 'sockets': 1}, 'oracles': {'decode': 0, 'parse': 0, 'order': 0}}
             solos.append(s)
         fams.append(solos + [conc])
-    flat = [c for f in fams for c in f]
-    rs = pmap(lambda c: run_case(c, variant), flat, variant=variant); i = 0
-    for fam in fams:
+    # half of the families run on the fine-grained build: forced preemptions at function boundaries let two instances interleave
+    # inside code that contains no synchronisation operation at all (e.g. a kernel working on process-global scratch memory)
+    core.build('fine'); fvar = []
+    for k, fam in enumerate(fams):
+        fv = 'fine' if k % 2 == 0 else variant; fvar.append(fv)
+        if fv == 'fine': fam[-1]['sim'] = dict(fam[-1]['sim'], fine=rng.choice([2000, 8000, 30000])); ck.ev.fault('fine_preemption')
+    flat = [(c, fv) for f, fv in zip(fams, fvar) for c in f]
+    rs = pmap(lambda cv: run_case(cv[0], cv[1]), flat, variant=variant); i = 0
+    for fam, variant in zip(fams, fvar):
         frs = rs[i:i + len(fam)]; i += len(fam); conc, cr = fam[-1], frs[-1]
+        ck.ev.probe('fine_preemptions', (cr.get('sim') or {}).get('fine_preemptions', 0))
         for c, r in zip(fam, frs): ck.ev.add_run(c, r, _default_key(c, r) if c is not conc else ((r.get('sim') or {}).get('trace_hash') if r.get('outcome') == 'ok' else None))
         ck.ev.probe('instances=%d' % (len(fam) - 1))
         for v in relabel(single_violations(conc, cr, variant), 'C17', ('TERM', 'CRASH')):
